@@ -243,7 +243,7 @@ Proof.
   - intros g Hg. exists g. split; [exact Hg|]. unfold res. rewrite (proper_not_hist c g (root_plain g Hg)). now left.
   - intros x. apply (eff_h0h c root_compound). exact root_plain.
   - apply GIH_empty.
-  - split; [exact A|]. split; [exact C|]. rewrite D', app_nil_r.
+  - split; [exact A|]. split; [exact C|]. rewrite D'.
     assert (E : flat_map (hc_one c []) (fs_completion (st c 0)) = []).
     { assert (Hg : forall l, (forall g, In g l -> pseudoS c g = false) -> flat_map (hc_one c []) l = []).
       { induction l as [|g l IH]; intros Hl; cbn [flat_map]; [reflexivity|].
